@@ -116,6 +116,8 @@ STATEMENTS = {
     "if not tensors:\n    tensors = [tens for tens in op.inputs if tens]": ("tensors", "tensor_shapes", "listlistZ", "second"),
     "if op.inputs[1].shape == []:\n    axis = [int(op.inputs[1].values)]\nelse:\n    axis = list(op.inputs[1].values)":
         ("axis", "axis", "listZ", "whole"),
+    "if op.inputs[1].shape == []:\n    axis = [int(op.inputs[1].values)]\nelse:\n    axis = [int(ax) for ax in op.inputs[1].values]":
+        ("axis", "axis", "listZ", "whole"),
 }
 IGNORED_NAMES = {"extra", "datatype", "message"}
 
